@@ -176,21 +176,25 @@ Print Assumptions C09_dir_pattern_needs_dir.
 
 (* ---- the exclude test: pathspec as CBI calls it, against git ---- *)
 
-(* For EVERY list of patterns and EVERY root-relative path: whatever the model of
+(* C09_exclude_sound (whatever CBI excludes, git ignores - for ALL lists) is false: see
+   C09_dstar_dir_tail_refuted.  Proved: for EVERY list of patterns without a line
+   ending in "/**/" and EVERY root-relative path, whatever the model of
    GitIgnoreSpec.match_file (asked about the path of the file only, as
-   CodeBase.__contains__ does) excludes, git ignores.  CBI never drops a file git keeps. *)
-Theorem C09_exclude_sound :
-  forall (ps : list apat) (cs : list chars), ps_match ps cs = true -> git_ignored ps cs = true.
+   CodeBase.__contains__ does) excludes, git ignores: there CBI never drops a file
+   git keeps.  Missing: lists with a "/**/" line (known finding). *)
+Theorem C09_exclude_sound_partial :
+  forall (ps : list apat) (cs : list chars),
+    notail ps -> ps_match ps cs = true -> git_ignored ps cs = true.
 Proof. exact ps_match_sound. Qed.
-Print Assumptions C09_exclude_sound.
+Print Assumptions C09_exclude_sound_partial.
 
 (* C09_parent_rule (M's exclude test = S's for all lists) is FALSE of the faithful
-   model - see the two refutations below.  Proved instead: equality for every list
-   and path outside the two class predicates of Spec/C09.v.  Missing for the full
-   statement: exactly those two classes (known findings). *)
+   model - see the refutations below.  Proved instead: equality for every list without
+   a "/**/" line and every path outside the two class predicates of Spec/C09.v.
+   Missing for the full statement: exactly those three classes (known findings). *)
 Theorem C09_parent_rule_partial :
   forall (ps : list apat) (cs : list chars),
-    parent_reinclude ps cs = false -> dir_reneg ps cs = false ->
+    notail ps -> parent_reinclude ps cs = false -> dir_reneg ps cs = false ->
     ps_match ps cs = git_ignored ps cs.
 Proof. exact ps_match_eq_git. Qed.
 Print Assumptions C09_parent_rule_partial.
@@ -217,6 +221,16 @@ Theorem C09_parent_renegated_refuted :
 Proof. exists ["x.c"; "a/"; "!a/"], (comps_of ["a"; "x.c"]). vm_compute. repeat split. Qed.
 Print Assumptions C09_parent_renegated_refuted.
 
+(* class 3: a/**/ excludes a/x.c for pathspec (it compiles the line like a/), while
+   git only ignores what lies in directories strictly below a: CBI DROPS a file git keeps *)
+Theorem C09_dstar_dir_tail_refuted :
+  exists (ls : list string) (cs : list chars),
+    compile false ls = CPats (pats_of ls) /\ compile true ls = CPats (pats_of ls) /\
+    ps_match (pats_of ls) cs = true /\ git_ignored (pats_of ls) cs = false /\
+    tail_involved (pats_of ls) cs = true.
+Proof. exists ["a/**/"], (comps_of ["a"; "x.c"]). vm_compute. repeat split. Qed.
+Print Assumptions C09_dstar_dir_tail_refuted.
+
 (* the two readings of a line (pathspec's, git's) coincide unless pathspec rejects it *)
 Theorem C09_readings_agree :
   forall ls ps, compile false ls = CPats ps -> compile true ls = CPats ps.
@@ -235,11 +249,11 @@ Print Assumptions C09_escaped_slash_refuted.
    same reasons; proved: for every file system, process directory, spelling and code
    base whose lines pathspec accepts and whose directories are directories, `in`
    answers exactly as the specification does (same errors included) unless the
-   resolved file falls in one of the two classes.  Missing: the two classes, and
+   resolved file falls in one of the two classes.  Missing: the three classes, and
    lines pathspec rejects (C09_escaped_slash_refuted). *)
 Theorem C09_membership_partial :
   forall (fs : fsys) (cwd : path) (cb : codebase) (s : string) (ps : list apat),
-    compile false (cb_lines cb) = CPats ps ->
+    compile false (cb_lines cb) = CPats ps -> notail ps ->
     (forall d, In d (cb_roots cb) -> lookup fs d = Some KDir) ->
     (forall r root, resolve fs cwd s = Ok r -> find_root (cb_roots cb) r = Some root ->
        parent_reinclude ps (rel_comps root r) = false /\ dir_reneg ps (rel_comps root r) = false) ->
@@ -257,7 +271,7 @@ Print Assumptions C09_membership_partial.
 Theorem C09_enumeration_partial :
   forall (fs : fsys) (cb : codebase) (ps : list apat) (out mem : list path),
     wf fs -> names_plain fs ->
-    compile false (cb_lines cb) = CPats ps ->
+    compile false (cb_lines cb) = CPats ps -> notail ps ->
     (forall d, In d (cb_roots cb) -> lookup fs d = Some KDir) ->
     (forall r root, lookup fs r = Some KFile -> find_root (cb_roots cb) r = Some root ->
        parent_reinclude ps (rel_comps root r) = false /\ dir_reneg ps (rel_comps root r) = false) ->
@@ -279,7 +293,7 @@ Definition C09_cb : codebase := {| cb_roots := [["r"]]; cb_lines := ["/x.c"; "a/
 Example C09_nonvacuous :
   wf C09_fs /\ names_plain C09_fs /\ clean C09_fs (rev ["r"; "a"]) /\
   (forall d, In d (cb_roots C09_cb) -> lookup C09_fs d = Some KDir) /\
-  (exists ps, compile false (cb_lines C09_cb) = CPats ps /\ length ps = 4 /\
+  (exists ps, compile false (cb_lines C09_cb) = CPats ps /\ length ps = 4 /\ notail ps /\
      forall cs, In cs (map comps_of [["x.c"]; ["a"; "x.c"]; ["a"; "z.h"]; ["build"; "z.c"]]) ->
        parent_reinclude ps cs = false /\ dir_reneg ps cs = false) /\
   map (contains C09_fs ["r"; "a"] C09_cb)
@@ -299,6 +313,7 @@ Proof.
   split; [intros d [<-|[]]; reflexivity|].
   split.
   - eexists. split; [vm_compute; reflexivity|]. split; [reflexivity|].
+    split; [intros p Hp; cbn in Hp; repeat (destruct Hp as [<-|Hp]; [reflexivity|]); destruct Hp|].
     intros cs Hin. cbn in Hin.
     repeat (destruct Hin as [<-|Hin]; [vm_compute; split; reflexivity|]). destruct Hin.
   - vm_compute. repeat split. eexists. reflexivity.
